@@ -1,26 +1,125 @@
 package main
 
+// verifcheck: repository-specific static checker for projecteru2/core.
+// Usage: verifcheck -p C20 [-tier quick|thorough] [-repo /repo] [-verif /verif] [-only "<rule | construct>"]
+
 import (
+	"encoding/json"
+	"flag"
 	"fmt"
 	"os"
+	"path/filepath"
+	"runtime/debug"
+	"sort"
+	"strconv"
+	"strings"
 	"time"
-
-	"golang.org/x/tools/go/packages"
 )
 
+type propFunc func(p *Prog, r *Result, tier string)
+
+var registry = map[string]propFunc{}
+
+func register(id string, f propFunc) { registry[id] = f }
+
 func main() {
-	t0 := time.Now()
-	cfg := &packages.Config{Mode: packages.LoadSyntax, Dir: "/repo", Env: append(os.Environ(), "GOFLAGS=-mod=mod", "GOPROXY=off", "GOSUMDB=off", "GOWORK=off", "GOTOOLCHAIN=local")}
-	pkgs, err := packages.Load(cfg, "./...")
-	if err != nil {
-		panic(err)
+	prop := flag.String("p", "", "property id (C03 ...), comma list, or 'all'")
+	tier := flag.String("tier", os.Getenv("VERIF_TIER"), "quick|thorough")
+	repo := flag.String("repo", "/repo", "repository to analyse")
+	verif := flag.String("verif", "", "verification directory (default: parent of the binary's dir)")
+	only := flag.String("only", "", "replay: evaluate only the obligation with this key")
+	list := flag.Bool("list", false, "list registered properties")
+	replayFile := flag.String("replayfile", "", "replay file written by a failing run: re-evaluates that one obligation")
+	noSelf := flag.Bool("noselftest", false, "thorough tier without the mutant self-test")
+	flag.Parse()
+	if *tier == "" {
+		*tier = "quick"
 	}
-	n := 0
-	for _, p := range pkgs {
-		if len(p.Errors) > 0 {
-			fmt.Println(p.PkgPath, p.Errors)
+	if *replayFile != "" {
+		b, err := os.ReadFile(*replayFile)
+		if err != nil {
+			fmt.Fprintln(os.Stderr, err)
+			os.Exit(2)
 		}
-		n += len(p.Syntax)
+		var rp struct {
+			Property string `json:"property"`
+			Key      string `json:"key"`
+		}
+		if err := json.Unmarshal(b, &rp); err != nil || rp.Property == "" {
+			fmt.Fprintln(os.Stderr, "bad replay file")
+			os.Exit(2)
+		}
+		*prop, *only = rp.Property, rp.Key
 	}
-	fmt.Println(len(pkgs), n, time.Since(t0))
+	if *verif == "" {
+		exe, _ := os.Executable()
+		*verif = filepath.Dir(filepath.Dir(exe))
+	}
+	seed, _ := strconv.Atoi(os.Getenv("VERIF_SEED"))
+	var ids []string
+	for id := range registry {
+		ids = append(ids, id)
+	}
+	sort.Strings(ids)
+	if *list {
+		fmt.Println(strings.Join(ids, " "))
+		return
+	}
+	var want []string
+	if *prop == "all" {
+		want = ids
+	} else {
+		for _, id := range strings.Split(*prop, ",") {
+			if _, ok := registry[id]; !ok {
+				fmt.Fprintf(os.Stderr, "unknown property %q\n", id)
+				os.Exit(2)
+			}
+			want = append(want, id)
+		}
+	}
+	t0 := time.Now()
+	known, err := loadKnown(*verif)
+	if err != nil {
+		fmt.Fprintln(os.Stderr, "known_findings.json:", err)
+		os.Exit(2)
+	}
+	abs, _ := filepath.Abs(*repo)
+	p, err := loadProg(abs, false)
+	if err != nil {
+		// a tree that does not load is undecided for every property
+		for _, id := range want {
+			r := newResult(id)
+			r.Explanation = "repository failed to load/type-check; nothing could be analysed"
+			r.undecided("load", "packages.Load", "", err.Error())
+			r.finish(*verif, *tier, seed, t0, known, "")
+		}
+		os.Exit(1)
+	}
+	fmt.Printf("loaded %d packages, %d files, %d functions in %.1fs\n", len(p.Pkgs), p.NFiles, len(p.Funcs), time.Since(t0).Seconds())
+	bad := 0
+	for _, id := range want {
+		t1 := time.Now()
+		r := newResult(id)
+		r.Analysed["packages"] = len(p.Pkgs)
+		r.Analysed["files"] = p.NFiles
+		r.Analysed["functions_and_closures"] = len(p.Funcs)
+		func() {
+			defer func() {
+				if e := recover(); e != nil {
+					r.undecided("panic", "checker", "", fmt.Sprintf("checker panicked: %v\n%s", e, debug.Stack()))
+				}
+			}()
+			registry[id](p, r, *tier)
+			if *tier == "thorough" && !*noSelf && *only == "" {
+				selfTest(p, r, *verif, seed)
+			}
+		}()
+		if len(want) == 1 {
+			t1 = t0
+		}
+		bad += r.finish(*verif, *tier, seed, t1, known, *only)
+	}
+	if bad > 0 {
+		os.Exit(1)
+	}
 }
